@@ -576,16 +576,40 @@ func TestFaults(t *testing.T) {
 			if err != nil {
 				res.WriteErr = err.Error()
 			}
+			// a second, independent target of the same build shares contents (digests) with the first
+			fb.mu.Lock()
+			fb.ops = append(fb.ops, "SECOND-TARGET")
+			fb.mu.Unlock()
+			_ = os.MkdirAll(filepath.Join(pkg, "two.d"), 0755)
+			_ = os.WriteFile(filepath.Join(pkg, "x.out"), shared, 0644)
+			_ = os.WriteFile(filepath.Join(pkg, "y.out"), []byte("y "+r.word(1, 30)), 0644)
+			for k := 0; k < 3; k++ {
+				b, _ := os.ReadFile(filepath.Join(pkg, "flat.d", fmt.Sprintf("f%d", k)))
+				_ = os.WriteFile(filepath.Join(pkg, "two.d", fmt.Sprintf("g%d", k)), b, 0644)
+			}
+			target2 := &model.Target{Label: label.TL("pkg", "t2"), ChangeHash: "changehash2" + r.word(6, 6), Outputs: []model.Output{
+				model.NewOutput("file", "x.out"), model.NewOutput("file", "y.out"), model.NewOutput("dir", "two.d")}}
+			if result2, err2 := reg.WriteOutputs(e.ctx, target2, nil); err2 == nil {
+				fb.mu.Lock()
+				fb.ops = append(fb.ops, "RESULT-BEGIN")
+				fb.mu.Unlock()
+				if err2 = tc.Write(e.ctx, result2); err2 != nil {
+					res.WriteErr += " | second: " + err2.Error()
+				}
+			} else {
+				res.WriteErr += " | second: " + err2.Error()
+			}
 			fb.mu.Lock()
 			res.Ops = len(fb.ops)
 			seenResult := false
 			for _, o := range fb.ops {
+				if o == "SECOND-TARGET" {
+					seenResult = false
+					continue
+				}
 				if o == "RESULT-BEGIN" {
 					seenResult = true
 					continue
-				}
-				if seenResult && strings.HasPrefix(o, "set cas/") {
-					res.Order = append(res.Order, "blob-written-after-result-began")
 				}
 				if !seenResult && strings.HasPrefix(o, "set target/") {
 					res.Order = append(res.Order, "result-written-before-outputs-finished")
